@@ -945,6 +945,84 @@ def _constfn(p):
     return run
 
 
+# ------------------------------------------------- C08 registry sweep: both spellings of every registered function
+SPELL_EXEMPT = {"copyto": "explicit output target, both spellings are exercised by the C17 copyto action",
+                "savetxt": "writes a file; both writers are exercised by the C13 round trips",
+                "ones": "array creator reached only through like=", "zeros": "array creator reached only through like=",
+                "full": "numpy.full dispatches only through like=, never on the fill value (a converter outside the claim)"}
+
+
+def spell_templates():
+    """name of a registered function -> callable(f, o) performing one valid call on the operand set `o`
+    (o.a, o.b: (2, 2) polynomial arrays; o.v, o.w: vectors; o.t: (2, 2, 2); o.s: 0-d; o.c, o.d: constant, o.d > 0)."""
+    import numpoly
+    una = lambda f, o: f(o.a)                                             # noqa: E731
+    unc = lambda f, o: f(o.c)                                             # noqa: E731
+    bina = lambda f, o: f(o.a, o.b)                                        # noqa: E731
+    binc = lambda f, o: f(o.c, o.d)                                        # noqa: E731
+    ax0 = lambda f, o: f(o.a, axis=0)                                      # noqa: E731
+    seq = lambda f, o: f([o.a, o.b])                                       # noqa: E731
+    t = {}
+    for n in ("absolute", "negative", "positive", "square", "ones_like", "zeros_like", "nonzero", "count_nonzero", "atleast_1d",
+              "atleast_2d", "atleast_3d", "transpose", "any", "all", "amax", "amin", "max", "min", "argmax", "argmin", "diagonal",
+              "det", "ediff1d", "array_repr", "array_str", "isfinite"):
+        t[n] = una
+    for n in ("ceil", "floor", "rint", "around", "round"):
+        t[n] = unc
+    for n in ("sum", "prod", "mean", "cumsum", "diff"):
+        t[n] = ax0
+    for n in ("add", "subtract", "multiply", "equal", "not_equal", "less", "less_equal", "greater", "greater_equal", "maximum",
+              "minimum", "logical_and", "logical_or", "isclose", "allclose", "matmul", "result_type", "common_type"):
+        t[n] = bina
+    for n in ("divide", "floor_divide", "remainder", "divmod", "power"):
+        t[n] = binc
+    for n in ("concatenate", "stack", "hstack", "vstack", "dstack"):
+        t[n] = seq
+    t["inner"] = t["outer"] = lambda f, o: f(o.v, o.w)
+    t["diag"] = lambda f, o: f(o.v)
+    t["reshape"] = lambda f, o: f(o.a, (4,))
+    t["tile"] = lambda f, o: f(o.a, 2)
+    t["repeat"] = lambda f, o: f(o.a, 2, axis=0)
+    t["expand_dims"] = lambda f, o: f(o.a, 0)
+    t["moveaxis"] = lambda f, o: f(o.t, 0, 2)
+    for n in ("split", "array_split", "hsplit", "vsplit"):
+        t[n] = lambda f, o: f(o.a, 2)
+    t["dsplit"] = lambda f, o: f(o.t, 2)
+    t["broadcast_arrays"] = lambda f, o: f(o.a, o.v)
+    t["where"] = lambda f, o: f(numpy.array([[True, False], [False, True]]), o.a, o.b)
+    t["choose"] = lambda f, o: f(numpy.array([[0, 1], [1, 0]]), [o.a, o.b])
+    t["full_like"] = lambda f, o: f(o.a, o.s)
+    t["apply_along_axis"] = lambda f, o: f(numpoly.sum, 0, o.a)
+    t["apply_over_axes"] = lambda f, o: f(numpoly.sum, o.a, [0])
+    return t
+
+
+@action("spell")
+def _spell(p):
+    import types
+    import warnings
+    import numpoly
+    from .record import Extra, Multi
+    name = p["fn"]
+    template = spell_templates()[name]
+
+    def run(a, b, v, w, t, s, c, d):
+        o = types.SimpleNamespace(a=a, b=b, v=v, w=w, t=t, s=s, c=c, d=d)
+        # the numpy callable as registered (numpy.linalg.det, ...) against the public numpoly function of that name
+        keys = [k for k in numpoly.FUNCTION_COLLECTION if k.__name__ == name]
+        numpy_f, numpoly_f = keys[0], getattr(numpoly, name)
+        with warnings.catch_warnings():
+            warnings.simplefilter("ignore")
+            try:
+                ref = _flatten_results(template(numpy_f, o))
+                np_out, np_proj = "ret", [P.project(r if not isinstance(r, (numpy.dtype, type)) else str(r)) for r in ref]
+            except Exception as exc:  # noqa: BLE001
+                np_out, np_proj = "raise", [P.project_exception(exc)]
+            out = _flatten_results(template(numpoly_f, o))
+        return Extra(Multi([r if not isinstance(r, (numpy.dtype, type)) else str(r) for r in out]), np=np_proj, np_out=np_out)
+    return run
+
+
 @action("numdiv")
 def _numdiv(p):
     import numpoly
